@@ -10,17 +10,19 @@
   Hypotheses and readings, all visible in the statements:
   * bytes are `Nat`; `Recognised` (Proofs/KeysLoop.lean) is "input made of recognised sequences and validly encoded
     characters" at byte level, `C03_units_recognised` links it to concatenations of units;
-  * `metaCollision`: under utf-8 a one-byte 8-bit Meta key that is a UTF-8 lead byte (C0..FD) with more bytes
-    buffered is not "recognised" (property text: such keys count only when they end a read); 80..BF, FE, FF are
-    recognised anywhere;
+  * `metaCollision`: under utf-8 a one-byte 8-bit Meta key that is a UTF-8 lead byte (RFC 3629: C2..F4) with more
+    bytes buffered is not "recognised" (property text: such keys count only when they end a read); all other
+    one-byte keys are recognised anywhere - for C0, C1, F5..FD the code disagrees: known finding D43
+    (`d43Collision`, `runNoD43`, `C03_D43_witness`), whose complement the theorems carry as a hypothesis;
   * "reports every character as itself" is claimed for characters whose encoding is not a table key (`C03_chars`);
     the others (under latin-1 162 of 256) are reported under their table name (`C03_chars_table_key`);
   * after a key that is itself a KEYMAP_PREFIXES member (ESC, ESC ESC, ESC O, ESC [) has merged with what follows
     - which the text licenses - nothing is claimed about the table sequence that followed it (`C03_table`, third
     conjunct: the result only contains `u` and at least one more byte);
-  * C03_never_fails_partial excludes exactly the footprint of known finding D12 (`runNoD12`, decoder-relative;
-    `noD12` is a static over-approximation); the full statement is `C03_never_fails_full_statement`, refuted at
-    a point of the footprint by `C03_D12_witness`.
+  * C03_never_fails_partial excludes exactly the footprints of known findings D12 and D43 (`runNoD12`, `runNoD43`,
+    decoder-relative; `noD12` is a static over-approximation); the full statement is
+    `C03_never_fails_full_statement`, refuted at a point of each footprint by `C03_D12_witness` / `C03_D43_witness`;
+  * the lossless theorems speak about calls that return (`.ok`): they are conditional on the decoder not raising.
 -/
 import Curtsies.Model.KeysGen
 import Curtsies.Proofs.Keys
@@ -136,9 +138,15 @@ theorem C03_lossless_bytes (T : KeyTables) (enc : Enc) (buf : List Nat) (k : Key
 /-! ### (3) recognised sequences arriving whole -/
 
 /-- The one configuration the property sets aside "by design": under utf-8, a one-byte 8-bit key that is also a
-    UTF-8 lead byte (C0..FD), with more bytes buffered behind it. -/
+    UTF-8 lead byte (RFC 3629: C2..F4), with more bytes buffered behind it. -/
 def metaCollision (enc : Enc) (u rest : List Nat) : Prop :=
-  enc = .utf8 ∧ rest ≠ [] ∧ ∃ b, u = [b] ∧ 0xC0 ≤ b ∧ b ≤ 0xFD
+  enc = .utf8 ∧ rest ≠ [] ∧ ∃ b, u = [b] ∧ 0xC2 ≤ b ∧ b ≤ 0xF4
+
+/-- Footprint of known finding D43: under utf-8, one of the one-byte keys C0, C1, F5..FD - NOT UTF-8 lead bytes,
+    so the property's parenthesis does not cover them - with more bytes buffered behind it. The code treats them
+    like lead bytes: it waits and then raises UnicodeDecodeError (`C03_D43_witness`). -/
+def d43Collision (enc : Enc) (u rest : List Nat) : Prop :=
+  enc = .utf8 ∧ rest ≠ [] ∧ ∃ b, u = [b] ∧ isD43Byte b
 
 /-- For every entry `u` of either table, every continuation `rest`, encoding and naming mode:
     every proper prefix of `u` makes the decoder wait; then
@@ -149,7 +157,7 @@ def metaCollision (enc : Enc) (u rest : List Nat) : Prop :=
     - if `u` is a KEYMAP_PREFIXES member and more bytes are buffered: the decoder keeps reading, and whatever it
       returns consumed `u` and at least one more byte (never broken up). -/
 theorem C03_table (T : KeyTables) (hT : T.WF) (u : List Nat) (hu : T.isKey u = true) (enc : Enc)
-    (mode : KeyMode) (rest : List Nat) (hc : ¬ metaCollision enc u rest) :
+    (mode : KeyMode) (rest : List Nat) (hc : ¬ metaCollision enc u rest) (hd : ¬ d43Collision enc u rest) :
     (∀ i, 1 ≤ i → i < u.length → getKey T (u.take i) enc mode false = .ok none) ∧
     ((rest = [] ∨ u ∉ T.prefixes) →
       ∃ k, findKey T enc mode (u ++ rest) = .ok (some (k, u, rest)) ∧ tableName T u enc mode k) ∧
@@ -171,7 +179,9 @@ theorem C03_table (T : KeyTables) (hT : T.WF) (u : List Nat) (hu : T.isKey u = t
     · right
       refine ⟨h.resolve_left hr, unfinished_isKey hT hu enc ?_⟩
       rintro ⟨he, b, hb', h1, h2⟩
-      exact hc ⟨he, hr, b, hb', h1, h2⟩
+      by_cases h3 : 0xC2 ≤ b ∧ b ≤ 0xF4
+      · exact hc ⟨he, hr, b, hb', h3⟩
+      · exact hd ⟨he, hr, b, hb', by unfold isD43Byte; omega⟩
   · rintro ⟨hr, hp⟩
     have e : findKey T enc mode (u ++ rest) = findKeyLoop T enc mode u rest := by
       apply findKey_unit_wait enc mode u rest hr
@@ -187,14 +197,14 @@ theorem C03_table (T : KeyTables) (hT : T.WF) (u : List Nat) (hu : T.isKey u = t
 
 /-- `C03_table` for the tables regenerated from /repo. -/
 theorem C03_table_generated (u : List Nat) (hu : genTables.isKey u = true) (enc : Enc) (mode : KeyMode)
-    (rest : List Nat) (hc : ¬ metaCollision enc u rest) :
+    (rest : List Nat) (hc : ¬ metaCollision enc u rest) (hd : ¬ d43Collision enc u rest) :
     (∀ i, 1 ≤ i → i < u.length → getKey genTables (u.take i) enc mode false = .ok none) ∧
     ((rest = [] ∨ u ∉ genTables.prefixes) →
       ∃ k, findKey genTables enc mode (u ++ rest) = .ok (some (k, u, rest)) ∧ tableName genTables u enc mode k) ∧
     ((rest ≠ [] ∧ u ∈ genTables.prefixes) →
       findKey genTables enc mode (u ++ rest) = findKeyLoop genTables enc mode u rest ∧
       ∀ k c r, findKey genTables enc mode (u ++ rest) = .ok (some (k, c, r)) → ∃ m, m ≠ [] ∧ c = u ++ m) :=
-  C03_table genTables genTables_wf u hu enc mode rest hc
+  C03_table genTables genTables_wf u hu enc mode rest hc hd
 
 /-- Non-vacuity: F5 (`ESC [ 1 5 ~`) followed by `a`, and ESC (a KEYMAP_PREFIXES member) alone. -/
 example : findKey genTables .utf8 .curtsies ([27, 91, 49, 53, 126] ++ [97]) =
@@ -256,9 +266,9 @@ theorem C03_chars (T : KeyTables) (hT : T.WF) (enc : Enc) (c : Nat) (bs : List N
     keys. -/
 theorem C03_chars_table_key (T : KeyTables) (hT : T.WF) (enc : Enc) (c : Nat) (bs : List Nat)
     (hbs : charBytes enc c = some bs) (hk : T.isKey bs = true) (mode : KeyMode) (rest : List Nat)
-    (hc : ¬ metaCollision enc bs rest) (hp : rest = [] ∨ bs ∉ T.prefixes) :
+    (hc : ¬ metaCollision enc bs rest) (hd : ¬ d43Collision enc bs rest) (hp : rest = [] ∨ bs ∉ T.prefixes) :
     bs.length = 1 ∧ ∃ k, findKey T enc mode (bs ++ rest) = .ok (some (k, bs, rest)) ∧ tableName T bs enc mode k := by
-  refine ⟨?_, (C03_table T hT bs hk enc mode rest hc).2.1 hp⟩
+  refine ⟨?_, (C03_table T hT bs hk enc mode rest hc hd).2.1 hp⟩
   cases enc with
   | utf8 =>
     simp only [charBytes] at hbs
@@ -323,10 +333,12 @@ theorem unfinished_lead {seq : List Nat} (h : couldBeUnfinishedUtf8 seq = true) 
     `seq` can be completed by at least one more byte to ONE strictly valid character. Under ascii and latin-1 the
     decoder therefore waits only on table prefixes. The hypothesis is about the INPUT, not about the model's own
     predicate: the proof shows that `couldBeUnfinishedUtf8` keeps `seq` inside the first character of the
-    input, whose remaining bytes are the completion. -/
+    input, whose remaining bytes are the completion. `hd43` excludes exactly D43's footprint (the input starting
+    with a one-byte key C0, C1, F5..FD followed by another byte), where the code does wait without a possible
+    completion. -/
 theorem C03_waits_only_when_growable (T : KeyTables) (hT : T.WF) (enc : Enc) (seq ext : List Nat)
     (mode : KeyMode) (full : Bool) (hrec : Recognised T enc (seq ++ ext)) (hfull : ext = [] → full = true)
-    (h : getKey T seq enc mode full = .ok none) :
+    (hd43 : enc = .utf8 → headNoD43 (seq ++ ext)) (h : getKey T seq enc mode full = .ok none) :
     growsIntoKey T seq ∨ (enc = .utf8 ∧ ∃ e, e ≠ [] ∧ validChar (seq ++ e)) := by
   unfold getKey at h
   split at h
@@ -370,8 +382,20 @@ theorem C03_waits_only_when_growable (T : KeyTables) (hT : T.WF) (enc : Enc) (se
               subst this
               simp [keyKnown_of_isKey hk] at hfk
             | key8 b r hk h128 hlead _ =>
+              exfalso
               simp at hbuf
-              exact absurd ⟨by omega, by omega⟩ (hbuf.1 ▸ hlead)
+              obtain ⟨rfl, hbuf⟩ := hbuf
+              by_cases hr0 : r = []
+              · subst hr0
+                have ht : t = [] := by cases t <;> simp_all
+                have he : ext = [] := by cases ext <;> simp_all
+                subst ht
+                have := hfull he
+                subst this
+                simp [keyKnown_of_isKey hk] at hfk
+              · have := hd43 rfl b0 r (by simp [hbuf]) hr0
+                unfold isD43Byte at this
+                omega
             | char p r hp hr =>
               have hlp : (b0 :: t).length < p.length := by
                 cases hp with
@@ -454,12 +478,12 @@ theorem C03_wellformed_prefix_completes (seq : List Nat) (h : wellFormedSoFar se
     domain (its clause is about input made of recognised sequences and validly encoded characters, and `E0 41`
     is the start of neither); the statement is kept only to document why `C03_waits_only_when_growable` carries
     the `Recognised` hypothesis. -/
-def C03_waits_unconditional_statement : Prop :=
+def C03_waits_unconditional_remark : Prop :=
   ∀ seq, getKey genTables seq .utf8 .curtsies false = .ok none →
     growsIntoKey genTables seq ∨ ∃ ext, validChar (seq ++ ext)
 
 set_option maxRecDepth 100000 in
-theorem C03_waits_unconditional_false : ¬ C03_waits_unconditional_statement := by
+theorem C03_waits_unconditional_false : ¬ C03_waits_unconditional_remark := by
   intro h
   have h1 : getKey genTables [0xE0, 0x41] .utf8 .curtsies false = .ok none := by decide +kernel
   have h2 : ¬ growsIntoKey genTables [0xE0, 0x41] := by unfold growsIntoKey; decide +kernel
@@ -472,55 +496,78 @@ theorem C03_waits_unconditional_false : ¬ C03_waits_unconditional_statement := 
 /-! ### (5) never fails on recognised input - outside known finding D12 -/
 
 /-- FULL statement: on input made of recognised sequences and validly encoded characters (`Recognised`, byte-level,
-    Proofs/KeysLoop.lean: utf-8 = valid characters optionally ended by one single-byte key; ascii = ASCII and
-    single-byte keys; latin-1 = any bytes) decoding the whole buffer never fails.
-    It is FALSE for the code as it is (`C03_D12_witness`): known finding D12. -/
+    Proofs/KeysLoop.lean: utf-8 = valid characters and one-byte keys that are not UTF-8 lead bytes, optionally
+    ended by any one-byte key; ascii = ASCII and single-byte keys; latin-1 = any bytes) decoding the whole buffer
+    never fails. It is FALSE for the code as it is: known findings D12 (`C03_D12_witness`) and D43
+    (`C03_D43_witness`). -/
 def C03_never_fails_full_statement : Prop :=
   ∀ (enc : Enc) (mode : KeyMode) (buf : List Nat), Recognised genTables enc buf →
     ∃ ps, segment genTables enc mode buf.length buf = .ok ps
 
-/-- What is proved: the full statement with the one extra hypothesis `runNoD12` (Proofs/KeysLoop.lean): in no
-    `find_key()` call of the run is `get_key` handed a KEYMAP_PREFIXES member followed by a byte >= 0x80 (needed
-    under utf-8 and ascii only) - EXACTLY the complement of D12's footprint, relative to the decoder's own state.
-    For arbitrary tables satisfying `WF`, any fuel >= the buffer length.
-    Missing relative to the full statement: the D12 region itself (where the code does fail). -/
+/-- What is proved: the full statement with two extra hypotheses, each EXACTLY the complement of one known
+    finding's footprint, relative to the decoder's own run (Proofs/KeysLoop.lean):
+    `runNoD12` - in no `find_key()` call is `get_key` handed a KEYMAP_PREFIXES member followed by a byte >= 0x80
+    (utf-8 and ascii); `runNoD43` - no `find_key()` call starts on one of the one-byte keys C0, C1, F5..FD followed
+    by another byte (utf-8). For arbitrary tables satisfying `WF`, any fuel >= the buffer length.
+    Missing relative to the full statement: the D12 and D43 regions themselves (where the code does fail). -/
 theorem C03_never_fails_partial (T : KeyTables) (hT : T.WF) (enc : Enc) (mode : KeyMode) (n : Nat) :
     ∀ buf : List Nat, buf.length ≤ n → Recognised T enc buf → (enc = .latin1 ∨ runNoD12 T enc mode n buf) →
+    (enc = .utf8 → runNoD43 T enc mode n buf) →
     ∃ ps, segment T enc mode n buf = .ok ps := by
   induction n with
   | zero =>
-    intro buf hl _ _
+    intro buf hl _ _ _
     have : buf = [] := List.eq_nil_of_length_eq_zero (by omega)
     subst this; exact ⟨[], rfl⟩
   | succ n ih =>
-    intro buf hl hrec hno
+    intro buf hl hrec hno hd
     cases buf with
     | nil => exact ⟨[], rfl⟩
     | cons b bs =>
       obtain ⟨k, c, r, hf, hr⟩ := findKey_recognised hT enc mode (b :: bs) (by simp) hrec
-        (hno.imp id (fun h => h.1))
+        (hno.imp id (fun h => h.1)) (fun he => (hd he).1)
       obtain ⟨h1, h2⟩ := C03_lossless T enc mode _ k c r hf
       have hlen : r.length ≤ n := by
         have : (c ++ r).length = (b :: bs).length := by rw [h1]
         have hc : 0 < c.length := List.length_pos_iff.mpr h2
         simp at this hl; omega
-      obtain ⟨ps, hps⟩ := ih r hlen hr (hno.imp id (fun h => h.2 k c r hf))
+      obtain ⟨ps, hps⟩ := ih r hlen hr (hno.imp id (fun h => h.2 k c r hf)) (fun he => (hd he).2 k c r hf)
       exact ⟨(k, c) :: ps, by simp [segment, hf, hps]⟩
 
-/-- The same with the STATIC, decoder-independent hypothesis `noD12` (nowhere in the buffer is a KEYMAP_PREFIXES
-    member followed by a byte >= 0x80). It implies `runNoD12` but over-approximates the footprint: e.g.
-    `1b 5b 31 1b c3 a9` is excluded by it although it decodes (to `ESC[1ESC`, `é`) - see the example below. -/
+/-- The same with STATIC, decoder-independent hypotheses: `noD12` (nowhere in the buffer is a KEYMAP_PREFIXES
+    member followed by a byte >= 0x80; it over-approximates D12's footprint, e.g. `1b 5b 31 1b c3 a9` is excluded
+    although it decodes - see the example below) and `noD43` (nowhere is a byte C0, C1, F5..FD followed by
+    another byte; exact on recognised input). -/
 theorem C03_never_fails_static (T : KeyTables) (hT : T.WF) (enc : Enc) (mode : KeyMode) (n : Nat)
-    (buf : List Nat) (hl : buf.length ≤ n) (hrec : Recognised T enc buf) (hno : enc = .latin1 ∨ noD12 T buf) :
+    (buf : List Nat) (hl : buf.length ≤ n) (hrec : Recognised T enc buf) (hno : enc = .latin1 ∨ noD12 T buf)
+    (hd : enc = .utf8 → noD43 buf) :
     ∃ ps, segment T enc mode n buf = .ok ps :=
   C03_never_fails_partial T hT enc mode n buf hl hrec (hno.imp id (runNoD12_of_noD12 enc mode n buf))
+    (fun he => runNoD43_of_noD43 enc mode n buf (hd he))
 
 /-- `C03_never_fails_partial` for the regenerated tables and the fuel the driver uses. -/
 theorem C03_never_fails_generated (enc : Enc) (mode : KeyMode) (buf : List Nat)
     (hrec : Recognised genTables enc buf)
-    (hno : enc = .latin1 ∨ runNoD12 genTables enc mode buf.length buf) :
+    (hno : enc = .latin1 ∨ runNoD12 genTables enc mode buf.length buf)
+    (hd : enc = .utf8 → runNoD43 genTables enc mode buf.length buf) :
     ∃ ps, segment genTables enc mode buf.length buf = .ok ps :=
-  C03_never_fails_partial genTables genTables_wf enc mode buf.length buf (Nat.le_refl _) hrec hno
+  C03_never_fails_partial genTables genTables_wf enc mode buf.length buf (Nat.le_refl _) hrec hno hd
+
+/-- Known finding D43, witnessed on the model (and replayed on the real code by the harness on every run):
+    0xC0 is a one-byte key (<Meta-@>) and not a UTF-8 lead byte, so `c0 41` is recognised input (<Meta-@>, 'A');
+    the decoder waits on `c0` and raises UnicodeDecodeError on `c0 41`; on `f8 61` it waits even when told the
+    buffer is exhausted (so `find_key` raises ValueError). The full statement is false here too. -/
+theorem C03_D43_witness :
+    genTables.isKey [0xC0] = true ∧ isD43Byte 0xC0 ∧ Recognised genTables .utf8 [0xC0, 0x41] ∧
+    getKey genTables [0xC0] .utf8 .curtsies false = .ok none ∧
+    getKey genTables [0xC0, 0x41] .utf8 .curtsies true = .error .unicodeDecodeError ∧
+    getKey genTables [0xF8, 0x61] .utf8 .curtsies true = .ok none ∧
+    findKey genTables .utf8 .curtsies [0xF8, 0x61] = .error .valueError ∧
+    segment genTables .utf8 .curtsies 2 [0xC0, 0x41] = .error .unicodeDecodeError := by
+  have hk : genTables.isKey [0xC0] = true := by decide +kernel
+  refine ⟨hk, by decide, ?_, by decide +kernel, by decide +kernel, by decide +kernel, by decide +kernel,
+    by decide +kernel⟩
+  exact RecUtf8.key8 0xC0 [0x41] hk (by omega) (by omega) (RecUtf8.char [0x41] [] (.one _ (by omega)) .nil)
 
 /-- Known finding D12, witnessed on the model (and replayed on the real code by the harness on every run):
     ESC (a key and a KEYMAP_PREFIXES member) followed by the 8-bit key 0xFF (<Meta-BACKSPACE>) is recognised
@@ -568,10 +615,10 @@ example : segment genTables .utf8 .curtsies 6 [27, 91, 65, 0xC3, 0xA9, 0xFF] =
 /-! ### units: what "input made of recognised sequences and validly encoded characters" means -/
 
 /-- one unit of "input made of recognised escape sequences and validly encoded characters": a table sequence or
-    one valid character; under utf-8 a single-byte table key whose value is a UTF-8 lead byte (C0..FD) is not a
+    one valid character; under utf-8 a single-byte table key whose value is a UTF-8 lead byte (C2..F4) is not a
     unit here (it may only END the input: `final` in `C03_units_recognised`) -/
 def isUnit (T : KeyTables) : Enc → List Nat → Prop
-  | .utf8, u => (T.isKey u = true ∧ ∀ b, u = [b] → ¬ (0xC0 ≤ b ∧ b ≤ 0xFD)) ∨ Shape u
+  | .utf8, u => (T.isKey u = true ∧ ∀ b, u = [b] → ¬ (0xC2 ≤ b ∧ b ≤ 0xF4)) ∨ Shape u
   | .ascii, u => T.isKey u = true ∨ ∃ b, u = [b] ∧ b < 128
   | .latin1, u => T.isKey u = true ∨ ∃ b, u = [b] ∧ b < 256
 
